@@ -43,8 +43,13 @@ def _alarm(signum, frame):
 def call(fn, *a, watchdog: float = 0.0, **kw):
     """Call fn; return (outcome, value) with outcome 'ret' | 'exc:<Class>' | 'hang'."""
     if watchdog:
+        # CPU time of this process, not wall time: a parser that loops burns CPU and is caught after `watchdog` seconds
+        # of it, while a busy machine (many checks side by side) cannot turn a millisecond call into a "hang".
+        # Wall clock only as a distant backstop for a call that blocks without computing.
+        signal.signal(signal.SIGPROF, _alarm)
         signal.signal(signal.SIGALRM, _alarm)
-        signal.setitimer(signal.ITIMER_REAL, watchdog)
+        signal.setitimer(signal.ITIMER_PROF, watchdog)
+        signal.setitimer(signal.ITIMER_REAL, 60 * watchdog)
     try:
         v = fn(*a, **kw)
         return "ret", v
@@ -56,6 +61,7 @@ def call(fn, *a, watchdog: float = 0.0, **kw):
         return f"exc:{type(ex).__name__}", ex
     finally:
         if watchdog:
+            signal.setitimer(signal.ITIMER_PROF, 0)
             signal.setitimer(signal.ITIMER_REAL, 0)
 
 
